@@ -157,29 +157,29 @@ func genExotic(t *rapid.T) []ExEntry {
 	return out
 }
 
-// genState is what the schedule generator may look at.
+// genState is what the schedule generator may look at. The primary history is
+// revealed gradually: `front` is the number of write operations that "have
+// happened so far"; polls are cut at that frontier and an operation's pushes
+// are emitted when the frontier passes it - the way a live primary behaves.
 type genState struct {
 	cur         uint64 // replica's expected next sequence
-	maxSeq      uint64
+	front       int    // write operations visible so far
 	pendingNack uint64
 	afterReset  bool
-	queue       []Msg // rest of a multi-part push
+	queue       []Msg // messages in flight (pushes of the latest writes, delayed messages)
 	sent        []Msg
 	caughtUpFor int
 	long        bool
 }
 
-func decorate(t *rapid.T, m *Msg, st *genState) {
-	if rapid.IntRange(0, 9).Draw(t, "cut") < 4 {
-		hi := 12
-		if st.long && rapid.Bool().Draw(t, "longcut") {
-			hi = 120
-		}
-		m.Len = rapid.IntRange(1, hi).Draw(t, "len")
+func decorate(t *rapid.T, m *Msg, avail int) {
+	if avail > 1 && rapid.IntRange(0, 9).Draw(t, "cut") < 4 {
+		m.Len = rapid.IntRange(1, avail-1).Draw(t, "len")
+		avail = m.Len
 	}
-	if rapid.IntRange(0, 15).Draw(t, "hole") == 0 {
+	if avail >= 3 && rapid.IntRange(0, 11).Draw(t, "hole") == 0 {
 		if ev.Flag("noncontig_msg") {
-			m.Drop = []int{rapid.IntRange(1, 5).Draw(t, "holepos")}
+			m.Drop = []int{rapid.IntRange(1, avail-2).Draw(t, "holepos")}
 		} else {
 			ev.R().Exclude("noncontig_msg")
 		}
@@ -189,121 +189,157 @@ func decorate(t *rapid.T, m *Msg, st *genState) {
 		encs = []string{"", "", "", "", "", "", "zstd", "snappy"}
 	}
 	m.Enc = rapid.SampledFrom(encs).Draw(t, "enc")
-	m.Ack = rapid.IntRange(0, 9).Draw(t, "ackpath") == 0
-	if rapid.IntRange(0, 19).Draw(t, "applyerr") == 0 {
+	m.Ack = rapid.IntRange(0, 9).Draw(t, "waitingpath") == 0
+	if rapid.IntRange(0, 15).Draw(t, "applyerr") == 0 {
 		if ev.Flag("apply_error") {
-			m.FailAt = rapid.IntRange(1, 4).Draw(t, "failat")
+			m.FailAt = rapid.IntRange(1, min(avail, 4)).Draw(t, "failat")
 		} else {
 			ev.R().Exclude("apply_error")
 		}
 	}
 }
 
+// pollMsg builds a poll-style message (initial entries, timer poll, resend)
+// from position `from`, cut at the frontier. ok=false: nothing to send.
+func pollMsg(t *rapid.T, st *genState, h *history, from uint64, why string) (Msg, bool) {
+	if from < 1 {
+		from = 1
+	}
+	ents, err := h.poll(from)
+	if err != nil || len(ents) == 0 {
+		return Msg{}, false
+	}
+	lim := h.tr.seqOf[st.front]
+	n := 0
+	for _, e := range ents {
+		if e.SequenceNumber > lim {
+			break
+		}
+		n++
+	}
+	if n == 0 {
+		return Msg{}, false
+	}
+	m := Msg{Src: "poll", From: from, Why: why}
+	if n < len(ents) {
+		m.Len = n
+	}
+	full := m.Len
+	decorate(t, &m, n)
+	if m.Len == 0 {
+		m.Len = full
+	}
+	return m, true
+}
+
 // nextMsg draws the next message of the schedule; nil = the schedule ends.
 func nextMsg(t *rapid.T, st *genState, h *history) *Msg {
-	if len(st.queue) > 0 {
-		m := st.queue[0]
-		st.queue = st.queue[1:]
-		if rapid.IntRange(0, 9).Draw(t, "droppart") == 0 {
-			if len(st.queue) == 0 {
-				return nextMsg(t, st, h)
-			}
-			m = st.queue[0]
+	for tries := 0; tries < 50; tries++ {
+		if len(st.queue) > 0 && rapid.IntRange(0, 5).Draw(t, "takeq") != 0 {
+			m := st.queue[0]
 			st.queue = st.queue[1:]
-		}
-		return &m
-	}
-	if st.afterReset {
-		st.afterReset = false
-		m := Msg{Src: "poll", From: st.cur, Why: "reconnect"}
-		decorate(t, &m, st)
-		m.Drop, m.FailAt = nil, 0
-		return &m
-	}
-	if st.pendingNack > 0 {
-		switch d := rapid.IntRange(0, 9).Draw(t, "nackfate"); {
-		case d < 7:
-			m := Msg{Src: "poll", From: st.pendingNack, Why: "resend"}
-			st.pendingNack = 0
-			decorate(t, &m, st)
 			return &m
-		case d == 7:
-			st.pendingNack = 0 // the resend is lost
+		}
+		if st.afterReset {
+			st.afterReset = false
+			// reconnect: StreamWAL's initial entries from the replica's expected position
+			if m, ok := pollMsg(t, st, h, st.cur, "reconnect"); ok {
+				return &m
+			}
+		}
+		if st.pendingNack > 0 {
+			switch d := rapid.IntRange(0, 9).Draw(t, "nackfate"); {
+			case d < 7:
+				from := st.pendingNack
+				st.pendingNack = 0
+				if m, ok := pollMsg(t, st, h, from, "resend"); ok {
+					return &m
+				}
+			case d == 7:
+				st.pendingNack = 0 // the resend is lost
+			}
+		}
+		done := st.front >= h.nWrite
+		caught := st.front > 0 && st.cur > h.tr.seqOf[st.front]
+		if done && caught && len(st.queue) == 0 {
+			st.caughtUpFor++
+			if st.caughtUpFor > 1 && rapid.IntRange(0, 2).Draw(t, "end") == 0 {
+				return nil
+			}
+		}
+		var kinds []string
+		switch {
+		case st.front == 0:
+			kinds = []string{"write"}
+		case done:
+			kinds = []string{"poll", "poll", "poll", "stale", "stale", "dup", "dup", "reset", "ahead"}
+		default:
+			kinds = []string{"write", "write", "write", "write", "write", "write", "write", "burst",
+				"poll", "poll", "poll", "stale", "stale", "ahead", "dup", "dup", "reset"}
+		}
+		switch rapid.SampledFrom(kinds).Draw(t, "kind") {
+		case "write", "burst":
+			n := 1
+			if rapid.IntRange(0, 4).Draw(t, "burst") == 0 {
+				hi := 6
+				if st.long {
+					hi = 130
+				}
+				n = rapid.IntRange(2, hi).Draw(t, "nburst")
+			}
+			for i := 0; i < n && st.front < h.nWrite; i++ {
+				st.front++
+				// the log observer pushes the operation to the connected replica
+				for part := range h.pushes[st.front] {
+					if rapid.IntRange(0, 7).Draw(t, "pushlost") == 0 {
+						continue
+					}
+					pm := Msg{Src: "push", Op: st.front, Part: part, Why: "push"}
+					decorate(t, &pm, len(h.pushes[st.front][part].Entries))
+					st.queue = append(st.queue, pm)
+				}
+			}
+			if k := len(st.queue); k >= 2 && rapid.IntRange(0, 5).Draw(t, "swap") == 0 {
+				st.queue[k-1], st.queue[k-2] = st.queue[k-2], st.queue[k-1] // overtaking
+			}
+		case "poll":
+			if m, ok := pollMsg(t, st, h, st.cur, "progress"); ok {
+				return &m
+			}
+		case "stale":
+			d := uint64(rapid.IntRange(1, 4).Draw(t, "back"))
+			from := uint64(1)
+			if st.cur > d {
+				from = st.cur - d
+			}
+			if m, ok := pollMsg(t, st, h, from, "stale"); ok {
+				if rapid.IntRange(0, 3).Draw(t, "delay") == 0 {
+					st.queue = append(st.queue, m)
+					continue
+				}
+				return &m
+			}
+		case "ahead":
+			if m, ok := pollMsg(t, st, h, st.cur+uint64(rapid.IntRange(1, 5).Draw(t, "fwd")), "ahead"); ok {
+				return &m
+			}
+		case "dup":
+			if len(st.sent) == 0 {
+				continue
+			}
+			back := rapid.IntRange(1, min(4, len(st.sent))).Draw(t, "dupback")
+			m := st.sent[len(st.sent)-back]
+			m.Why = "dup"
+			m.FailAt = 0
+			return &m
+		case "reset":
+			st.afterReset = true
+			st.pendingNack = 0
+			st.queue = nil // messages in flight die with the connection
+			return &Msg{Src: "reset"}
 		}
 	}
-	caught := st.cur > st.maxSeq
-	if caught {
-		st.caughtUpFor++
-		if st.caughtUpFor > 1 && rapid.IntRange(0, 2).Draw(t, "end") == 0 {
-			return nil
-		}
-	}
-	kinds := []string{"progress", "progress", "progress", "progress", "progress", "progress", "progress", "progress",
-		"push", "push", "push", "push", "stale", "stale", "stale", "ahead", "ahead", "dup", "dup", "reset"}
-	if caught {
-		kinds = []string{"push", "stale", "stale", "dup", "dup", "reset", "ahead"}
-	}
-	kind := rapid.SampledFrom(kinds).Draw(t, "kind")
-	var m Msg
-	switch kind {
-	case "progress":
-		m = Msg{Src: "poll", From: st.cur, Why: "progress"}
-	case "stale":
-		d := uint64(rapid.IntRange(1, 4).Draw(t, "back"))
-		from := uint64(1)
-		if st.cur > d {
-			from = st.cur - d
-		}
-		m = Msg{Src: "poll", From: from, Why: "stale"}
-	case "ahead":
-		m = Msg{Src: "poll", From: st.cur + uint64(rapid.IntRange(1, 5).Draw(t, "fwd")), Why: "ahead"}
-	case "dup":
-		if len(st.sent) == 0 {
-			m = Msg{Src: "poll", From: st.cur, Why: "progress"}
-			break
-		}
-		back := rapid.IntRange(1, 4).Draw(t, "dupback")
-		if back > len(st.sent) {
-			back = len(st.sent)
-		}
-		m = st.sent[len(st.sent)-back]
-		m.Why = "dup"
-		m.FailAt = 0
-		return &m
-	case "reset":
-		st.afterReset = true
-		st.pendingNack = 0
-		st.queue = nil
-		return &Msg{Src: "reset"}
-	case "push":
-		op := h.tr.opOf[st.cur]
-		if op == 0 {
-			op = h.nWrite
-		}
-		op += rapid.SampledFrom([]int{0, 0, 0, 0, 0, 0, 1, 1, -1, -1, 2, -2}).Draw(t, "pushdelta")
-		if op < 1 {
-			op = 1
-		}
-		if op > h.nWrite {
-			op = h.nWrite
-		}
-		parts := len(h.pushes[op])
-		if parts == 0 { // nothing was pushed for that operation (primary blind after a rotation)
-			ev.R().Count("push_wanted_but_none_recorded", 1)
-			m = Msg{Src: "poll", From: st.cur, Why: "progress"}
-			break
-		}
-		var ms []Msg
-		for part := 0; part < parts; part++ {
-			pm := Msg{Src: "push", Op: op, Part: part, Why: "push"}
-			decorate(t, &pm, st)
-			ms = append(ms, pm)
-		}
-		st.queue = ms[1:]
-		return &ms[0]
-	}
-	decorate(t, &m, st)
-	return &m
+	return nil
 }
 
 // ------------------------------------------------------------ codec round trip
@@ -414,7 +450,7 @@ func runCase(c *Case, next func(st *genState, h *history) *Msg) (out outcome) {
 		}
 	}
 
-	st := &genState{maxSeq: h.tr.maxSeq, long: h.nWrite > 100}
+	st := &genState{long: h.nWrite > 100}
 	maxMsgs := 60
 	replay := next == nil
 	caughtUp := false
